@@ -41,4 +41,26 @@ def gt (a b : F) : Bool := lt b a
 def ofBool (b : Bool) : F := if b then one else zero
 end NumOps
 
+/-- A degenerate carrier, used only by non-vacuity examples that never look at numbers. -/
+instance : NumOps Unit where
+  zero := ()
+  one := ()
+  add := fun _ _ => ()
+  sub := fun _ _ => ()
+  mul := fun _ _ => ()
+  div := fun _ _ => ()
+  pow := fun _ _ => ()
+  neg := fun _ => ()
+  abs := fun _ => ()
+  floor := fun _ => ()
+  lt := fun _ _ => false
+  le := fun _ _ => true
+  eq := fun _ _ => true
+  toI64 := fun _ => 0
+  toU64 := fun _ => 0
+  ofNat := fun _ => ()
+  parse := fun _ => none
+  render := fun _ => ['0']
+  isFinite := fun _ => true
+
 end Abasic
